@@ -219,4 +219,23 @@ theorem hashNode_wf (k : HashKind) {t : Node} {n : Nat} (h : WF t n) : WF (hashN
         · exact absurd rfl hr.ne_nil
         · exact WF.bin ihl ihr
 
+/-! ### partially resolved trees (after Commit + reopen) -/
+
+/-- `Abstracts a t`: `t` is the resolved tree `a` with some subtrees left unresolved, i.e. replaced by
+a `HashNode` carrying the hash of the subtree (what `DecodeNode` produces for the children of a node
+read back from the database). -/
+inductive Abstracts (k : HashKind) : Node → Node → Prop
+  | refl (a : Node) : Abstracts k a a
+  | unresolved (a : Node) : Abstracts k a (.hash (rawHash k a))
+  | edge {p : Path} {c c' : Node} {fl fl' : Flags} : Abstracts k c c' → Abstracts k (.edge p c fl) (.edge p c' fl')
+  | bin {l r l' r' : Node} {fl fl' : Flags} : Abstracts k l l' → Abstracts k r r' →
+      Abstracts k (.bin l r fl) (.bin l' r' fl')
+
+theorem rawHash_abstracts {k : HashKind} {a t : Node} (h : Abstracts k a t) : rawHash k t = rawHash k a := by
+  induction h with
+  | refl a => rfl
+  | unresolved a => simp [rawHash]
+  | edge _ ih => simp [rawHash, ih]
+  | bin _ _ ihl ihr => simp [rawHash, ihl, ihr]
+
 end Juno.C01
